@@ -4,6 +4,8 @@
      si.i  start call i invoked          se.i  start call i returned the already-started error
      n     NotifyStartedFunc called      ao.c  Accept returned connection c
      fs    the serving start call returned the PacketConnReader error (failed start)
+     fl.i  start call i returned an error of its own before srv.started was set (bad network,
+           no TLS certificates, listen error, no listeners)
      ae    Accept returned an error      pk.p  ReadFrom returned packet p
      re    ReadFrom returned an error    sf    non-temporary listener error injected
      sr.v  serve call returned (0 nil, 1 error)
@@ -43,6 +45,7 @@ Definition parse_event (s : string) : option label :=
   else if String.eqb k "se" then Some (StReturnErr a)
   else if String.eqb k "n" then Some Notify
   else if String.eqb k "fs" then Some SFailStart
+  else if String.eqb k "fl" then Some (StFail a)
   else if String.eqb k "ao" then Some (SAcceptOk a)
   else if String.eqb k "ae" then Some SAcceptErr
   else if String.eqb k "pk" then Some (SPacket a)
